@@ -16,6 +16,8 @@ Fixpoint bterm_eqb (a b : bterm) : bool :=
   | _, _ => false
   end.
 Definition bcoef := (Z * positive * bterm)%type.     (* (n, d, t) stands for (n/d) * t *)
+(* which of the derivative options (mode, sigma, spacing, stride) of the caller reach a flow_derivatives call *)
+Definition lopts := (bool * bool * bool * bool)%type.
 
 Section BCH.
 Context {K : fld}.
